@@ -51,16 +51,21 @@ def native_replay(path: str, timeout=120):
 
 def counter_model(ob, col):
     """Re-solve a sat obligation in-process to obtain a model and concretise the kernel inputs."""
-    s = z3.Solver()
-    s.set("timeout", 20000)
-    for a in global_axioms(col.used_classes, REG):
-        s.add(a)
-    for h in ob.hyps:
-        s.add(h)
-    s.add(z3.Not(ob.goal))
-    if s.check() != z3.sat:
+    from .solve import relevance_slice
+    m = None
+    for hyps in (ob.hyps, relevance_slice(ob.hyps, ob.goal)):
+        s = z3.Solver()
+        s.set("timeout", 10000)
+        for a in global_axioms(col.used_classes, REG):
+            s.add(a)
+        for h in hyps:
+            s.add(h)
+        s.add(z3.Not(ob.goal))
+        if s.check() == z3.sat:
+            m = s.model()
+            break
+    if m is None:
         return None
-    m = s.model()
     env = ob.info.get("env") or {}
     fields = set(REG.fields)
     c = REG.contracts.get(ob.kernel)
@@ -135,7 +140,10 @@ def run_check(prop: str, tier: str, seed: int, only=None):
         else:
             undecided.append((ob.name, st, detail[:200]))
     # ---- violations: counter-model -> replay
-    os.makedirs(os.path.join(ROOT, "replays", prop), exist_ok=True)
+    rdir = os.path.join(ROOT, "replays", prop)
+    os.makedirs(rdir, exist_ok=True)
+    for old in os.listdir(rdir):
+        os.unlink(os.path.join(rdir, old))
     vio_records = []
     seen_base = set()
     for ob, detail in violations:
